@@ -30,11 +30,11 @@ PROPS = {"C09": "verifsim.c09", "C08": "verifsim.c08", "C16": "verifsim.c16"}
 # runs per tier (fixed numbers: one VERIF_SEED is one repeatable batch) and
 # the wall-clock safety cap after which no further chunk is started
 BUDGET = {
-    "C09": {"quick": (9000, 150), "thorough": (150000, 1500)},
-    "C08": {"quick": (8000, 150), "thorough": (150000, 1500)},
-    "C16": {"quick": (8000, 150), "thorough": (150000, 1500)},
+    "C09": {"quick": (24000, 200), "thorough": (600000, 2400)},
+    "C08": {"quick": (100000, 200), "thorough": (2500000, 2400)},
+    "C16": {"quick": (40000, 200), "thorough": (900000, 2400)},
 }
-CHUNK = {"C09": 50, "C08": 50, "C16": 50}
+CHUNK = {"C09": 50, "C08": 500, "C16": 250}
 
 
 def load(prop):
@@ -74,6 +74,7 @@ def execute(prop, seed=None, replay=None, capture=False):
         rendered=core._jsonable(st.rendered),
         trace=tr.lines if capture else None,
         notes=st.notes,
+        maxima=st.maxima,
     )
     return res
 
@@ -105,6 +106,7 @@ def _chunk(args):
         "inproc_checked": 0,
         "samples": [],
         "choices_total": 0,
+        "maxima": {},
     }
     for i in indices:
         seed = core.run_seed(verif_seed, prop, i)
@@ -116,6 +118,8 @@ def _chunk(args):
             out["faults"][k] = out["faults"].get(k, 0) + v
         for k, v in r["probes"].items():
             out["probes"][k] = out["probes"].get(k, 0) + v
+        for k, v in r["maxima"].items():
+            out["maxima"][k] = max(out["maxima"].get(k, float("-inf")), v)
         for k, v in r["distinct"].items():
             out["distinct"].setdefault(k, set()).add(hashlib.sha256(str(v).encode()).digest()[:8])
         if r["nontrivial"]:
@@ -348,7 +352,7 @@ def cmd_search(prop, tier, verif_seed, runs=None, workers=None, wall_cap=None, f
 
     agg = {
         "n": 0, "faults": {}, "probes": {}, "distinct": {}, "nontrivial": set(), "steps": 0, "violations": [], "errors": [],
-        "digests": {}, "inproc_mismatch": 0, "inproc_checked": 0, "samples": [], "choices_total": 0, "cpu_s": 0.0,
+        "digests": {}, "inproc_mismatch": 0, "inproc_checked": 0, "samples": [], "choices_total": 0, "cpu_s": 0.0, "maxima": {},
     }
     truncated = False
     broken = None
@@ -377,6 +381,8 @@ def cmd_search(prop, tier, verif_seed, runs=None, workers=None, wall_cap=None, f
                     agg["faults"][k] = agg["faults"].get(k, 0) + v
                 for k, v in o["probes"].items():
                     agg["probes"][k] = agg["probes"].get(k, 0) + v
+                for k, v in o["maxima"].items():
+                    agg["maxima"][k] = max(agg["maxima"].get(k, float("-inf")), v)
                 for k, v in o["distinct"].items():
                     agg["distinct"].setdefault(k, set()).update(v)
                 agg["nontrivial"] |= o["nontrivial"]
@@ -502,6 +508,7 @@ def cmd_search(prop, tier, verif_seed, runs=None, workers=None, wall_cap=None, f
             "fault_kinds_never_fired": zero_probes,
             "probes": dict(sorted(agg["probes"].items())),
             "distinct": {k: len(v) for k, v in sorted(agg["distinct"].items())},
+            "maxima": {k: v for k, v in sorted(agg["maxima"].items())},
             "real_components": mod.REAL_COMPONENTS,
             "stub_components": mod.STUB_COMPONENTS,
             "determinism_selftest": det,
